@@ -1,5 +1,5 @@
 """C05  Scales realise their step pattern; recognition is exact (mingus/core/scales.py)."""
-from vf.claim import Claim, assume, pick, raises_, real
+from vf.claim import Claim, assume, enum, fork, pick, raises_, real
 from vf.ref import scales as RS
 from vf.ref import theory as T
 from vf.ref.theory import pc, spelled
@@ -59,7 +59,7 @@ def _check_degrees(s, d):
 
 def c05_any_tonic(tonic: str, n: int) -> bool:
     cls = P["cls"]
-    n = real(n)
+    n = enum(n, 1, 4)
     s = getattr(scales, cls)(tonic, n)
     if not _check_scale(s, cls, tonic, n):
         return False
@@ -69,7 +69,7 @@ def c05_any_tonic(tonic: str, n: int) -> bool:
 
 def c05_diatonic(tonic: str, n: int) -> bool:
     semis = P["semis"]
-    n = real(n)
+    n = enum(n, 1, 4)
     s = scales.Diatonic(tonic, semis, n)
     pat = [1 if i in semis else 2 for i in range(1, 7)]
     pat.append(12 - sum(pat))
@@ -89,7 +89,7 @@ def _tonics(cls):
 
 def c05_keyed(ki: int, n: int) -> bool:
     cls = P["cls"]
-    n = real(n)
+    n = enum(n, 1, 4)
     pool = _tonics(cls)
     key = pick(pool, ki)
     tonic = T.key_tonic(key)
@@ -102,7 +102,7 @@ def c05_keyed(ki: int, n: int) -> bool:
 
 def c05_degrees(ki: int, n: int, d: int) -> bool:
     cls = P["cls"]
-    n = real(n)
+    n = enum(n, 1, 4)
     key = pick(_tonics(cls), ki)
     s = getattr(scales, cls)(key, n)
     assume(d <= len(RS.PATTERNS[cls]) * n)
